@@ -24,6 +24,9 @@ type c13Mut struct {
 	expLine int // expected diagnostic line (0 = anywhere)
 	expCol  int
 	lineMap func(int) int // original line -> new line
+	// variant mutations: lines (after the mutation) of the keys that belong to the mapping's own
+	// variant only; the report may name either side of the conflict
+	altLines []int
 }
 
 func c13Indent(n int) string { return strings.Repeat(" ", n) }
@@ -77,6 +80,48 @@ func c13Mutations(c *vCatalogue, m *vPos, sch vMappingSchema) []c13Mut {
 			}
 		}
 	}
+	// keys of the other variant of a two-variant mapping (run step / action step, ordinary job /
+	// reusable-workflow-call job): outside the key set of this variant
+	if own, other := c13Variants(m, sch); len(other) > 0 {
+		type place struct {
+			name  string
+			after int
+		}
+		var places []place
+		if !seqItem {
+			places = append(places, place{"variant-first", first.Line - 1})
+		}
+		if len(m.Keys) > 1 {
+			places = append(places, place{"variant-middle", m.Keys[0].EndLine})
+		}
+		places = append(places, place{"variant-last", m.EndLine})
+		for _, pl := range places {
+			for _, o := range other {
+				src, lm := ins(pl.after, []string{ind + o})
+				mu := c13Mut{kind: pl.name, key: strings.SplitN(o, ":", 2)[0], src: src, expLine: pl.after + 1, expCol: m.Indent, lineMap: lm}
+				for _, k := range m.Keys {
+					for _, ok := range own {
+						if strings.EqualFold(k.Value, ok) {
+							mu.altLines = append(mu.altLines, lm(k.Line))
+						}
+					}
+				}
+				out = append(out, mu)
+			}
+		}
+		// two keys of the other variant at once (after the last key): each one is outside the
+		// key set, so each must be reported (at itself or through a conflicting key of this variant)
+		for i := 0; i < len(other); i++ {
+			for j := i + 1; j < len(other); j++ {
+				if m.NPath == "jobs.*" && (strings.HasPrefix(other[i], "uses:") || strings.HasPrefix(other[j], "uses:")) {
+					continue // "uses" turns the job into a call: the job's own keys are then the foreign ones
+				}
+				src, lm := ins(m.EndLine, []string{ind + other[i], ind + other[j]})
+				mu := c13Mut{kind: "variant-pair", key: strings.SplitN(other[i], ":", 2)[0] + "+" + strings.SplitN(other[j], ":", 2)[0], src: src, expLine: m.EndLine + 1, expCol: m.Indent, lineMap: lm}
+				out = append(out, mu)
+			}
+		}
+	}
 	for ki, k := range m.Keys {
 		variants := []string{"dup"}
 		if sch.CI && strings.ToUpper(k.Value) != k.Value {
@@ -126,6 +171,56 @@ func c13Mutations(c *vCatalogue, m *vPos, sch vMappingSchema) []c13Mut {
 	return out
 }
 
+var c13StepRun = []string{"run", "shell", "working-directory"}
+var c13StepAction = []string{"uses", "with"}
+var c13JobOrdinary = []string{"runs-on", "steps", "env", "container", "services", "defaults", "timeout-minutes", "continue-on-error", "outputs", "environment"}
+var c13JobCall = []string{"uses", "with", "secrets"}
+
+// c13Variants returns the variant-only keys the mapping has a right to (own) and the insertable
+// "key: value" lines of the other variant that the mapping does not contain.
+func c13Variants(m *vPos, sch vMappingSchema) (own []string, other []string) {
+	has := func(k string) bool {
+		for _, x := range m.Keys {
+			if strings.EqualFold(x.Value, k) {
+				return true
+			}
+		}
+		return false
+	}
+	values := map[string]string{
+		"run": "run: echo", "shell": "shell: bash", "working-directory": "working-directory: d",
+		"uses": "uses: actions/checkout@v4", "with": "with: {x: y}",
+	}
+	jobValues := map[string]string{
+		"runs-on": "runs-on: ubuntu-latest", "steps": "steps: [{run: echo}]", "env": "env: {A: b}", "container": "container: img",
+		"services": "services: {s: {image: i}}", "defaults": "defaults: {run: {shell: bash}}", "timeout-minutes": "timeout-minutes: 5",
+		"continue-on-error": "continue-on-error: true", "outputs": "outputs: {a: b}", "environment": "environment: prod",
+		"uses": "uses: o/r/.github/workflows/w.yml@v1", "with": "with: {a: b}", "secrets": "secrets: {a: b}",
+	}
+	var otherKeys []string
+	switch m.NPath {
+	case "jobs.*.steps[]":
+		own, otherKeys = c13StepRun, c13StepAction
+		if has("uses") || has("with") {
+			own, otherKeys = c13StepAction, c13StepRun
+		}
+	case "jobs.*":
+		own, otherKeys = c13JobOrdinary, c13JobCall
+		if has("uses") {
+			own, otherKeys = c13JobCall, c13JobOrdinary
+		}
+		values = jobValues
+	default:
+		return nil, nil
+	}
+	for _, k := range otherKeys {
+		if !has(k) {
+			other = append(other, values[k])
+		}
+	}
+	return own, other
+}
+
 func c13Judge(r *vReport, c *vCatalogue, m *vPos, sch vMappingSchema, mu *c13Mut, sib *vPos) {
 	src := mu.src
 	sibLine, sibLo, sibHi := 0, 0, 0
@@ -151,7 +246,7 @@ func c13Judge(r *vReport, c *vCatalogue, m *vPos, sch vMappingSchema, mu *c13Mut
 		sibPath = sib.Path
 	}
 	replay := map[string]any{"seed": c.Seed, "mapping": m.Path, "mutation": mu.kind, "key": mu.key, "sibling": sibPath, "src": src,
-		"exp_line": mu.expLine, "exp_col": mu.expCol, "sib_line": sibLine, "sib_lo": sibLo, "sib_hi": sibHi, "closed": sch.Closed}
+		"exp_line": mu.expLine, "exp_col": mu.expCol, "sib_line": sibLine, "sib_lo": sibLo, "sib_hi": sibHi, "closed": sch.Closed, "alt_lines": mu.altLines}
 	if res.Panic != "" || res.Err != nil {
 		r.Violation("failure", fmt.Sprintf("%s %s %s: panic=%q err=%v", c.Seed, m.Path, mu.kind, vTrunc(res.Panic, 300), res.Err), replay)
 		return
@@ -180,6 +275,38 @@ func c13Verdict(r *vReport, errs []*Error, rp map[string]any, npath string) {
 		}
 		if !found {
 			r.Violation("foreign-key-not-reported:"+npath, fmt.Sprintf("%s: key %q outside the key set (%s) is not reported at %d:%d; diagnostics: %s", where, key, kind, expLine, expCol, vTrunc(fmt.Sprint(ds), 400)), rp)
+		}
+	case kind == "variant-pair":
+		for off := 0; off < 2; off++ {
+			found := false
+			for _, d := range ds {
+				if d.Line == expLine+off && d.Kind == "syntax-check" {
+					found = true
+				}
+			}
+			if !found {
+				r.Violation("other-variant-key-not-reported:"+npath+":second-of-pair", fmt.Sprintf("%s: keys %q of the other variant were added after the last key (lines %d and %d); the one at line %d is not reported; diagnostics: %s", where, key, expLine, expLine+1, expLine+off, vTrunc(fmt.Sprint(ds), 400)), rp)
+			}
+		}
+	case strings.HasPrefix(kind, "variant"):
+		lines := map[int]bool{expLine: true}
+		if al, ok := rp["alt_lines"].([]int); ok {
+			for _, l := range al {
+				lines[l] = true
+			}
+		} else if al, ok := rp["alt_lines"].([]any); ok {
+			for _, l := range al {
+				lines[vInt(l)] = true
+			}
+		}
+		found := false
+		for _, d := range ds {
+			if lines[d.Line] && d.Kind == "syntax-check" {
+				found = true
+			}
+		}
+		if !found {
+			r.Violation("other-variant-key-not-reported:"+npath+":"+key, fmt.Sprintf("%s: key %q belongs to the other variant of this mapping (%s) but neither it (line %d) nor a conflicting key of this variant is reported; diagnostics: %s", where, key, kind, expLine, vTrunc(fmt.Sprint(ds), 400)), rp)
 		}
 	case strings.HasPrefix(kind, "dup"):
 		found := false
@@ -294,6 +421,9 @@ func TestVerifC13(t *testing.T) {
 					if strings.HasPrefix(mu.kind, "dup") && strings.EqualFold(lastSeg(s.Path), mu.key) {
 						continue // the duplicated key's own value
 					}
+					if strings.HasPrefix(mu.kind, "variant") && c13BelowVariantKey(m, s) {
+						continue // the values of the conflicting keys themselves are not siblings
+					}
 					idx++
 					if !r.Mine(idx) {
 						continue
@@ -311,4 +441,21 @@ func lastSeg(p string) string {
 		return p[i+1:]
 	}
 	return p
+}
+
+// c13BelowVariantKey reports whether scalar s lies below a variant-only key of mapping m.
+func c13BelowVariantKey(m *vPos, s *vPos) bool {
+	rest := strings.TrimPrefix(strings.TrimPrefix(s.Path, m.Path), ".")
+	head := rest
+	if i := strings.IndexAny(rest, ".["); i >= 0 {
+		head = rest[:i]
+	}
+	for _, set := range [][]string{c13StepRun, c13StepAction, c13JobOrdinary, c13JobCall} {
+		for _, k := range set {
+			if strings.EqualFold(k, head) {
+				return true
+			}
+		}
+	}
+	return false
 }
